@@ -284,7 +284,19 @@ func (f *Frame) storeZero(st *State, a *Addr, blk int) {
 func (f *Frame) havocAll(b *ssa.BasicBlock, st *State, why string) {
 	tr := f.tr
 	c := tr.c
+	preserved := map[string]bool{}
+	if tr.topC != nil {
+		for _, k := range tr.topC.Preserves {
+			preserved[k] = true
+		}
+		if len(tr.topC.Preserves) > 0 {
+			c.note("TRUSTED FRAME in " + tr.topC.Qual + ": code of unknown effect called from it (function values, interface methods, channel operations) is assumed not to write " + strings.Join(tr.topC.Preserves, " "))
+		}
+	}
 	for _, k := range sortedKeys(c.memSorts) {
+		if preserved[k] {
+			continue
+		}
 		if k == "$alloc" {
 			old := tr.memGet(st, k)
 			st.mem[k] = c.declConst("alloc_h", "Int")
